@@ -206,14 +206,14 @@ func c12Equal(a, b interface{}, loc string, multi map[string]bool) bool {
 
 func c12Run(c *Ctx) {
 	mustBeDefault(c)
-	c.S.Rule = "cases = (Map, list of key pairs): every Map template with <= N nodes over keys {a,b,k} (lists, empty containers, null leaves) x every single pair old:new with old over paths of <= 2 steps from {a,b,k,z,*,a[0],k[1]} and new over {x,y,x.y,x.z}, the old shorthand, and malformed pairs (a:, :a, a:b:c, a:b*, a:b[0], z:x*, z:y[0]); every list of two pairs from a reduced pair set (incl. equal and extending new paths) on Maps with <= M nodes. Oracle: receiver deep-equal to its copy AND no monitored store into any container reachable from the receiver; malformed => error; exact content (reference projection built from ValuesForPath on a pristine copy) when no new path equals or extends another. Ascending and descending map order. non-trivial = non-empty result."
+	c.S.Rule = "cases = (Map, list of key pairs): every Map template with <= N nodes over keys {a,ab,k} (lists, empty containers, null leaves) x every single pair old:new with old over paths of <= 2 steps from {a,b,k,z,*,a[0],k[1]} and new over {x,y,x.y,x.z}, the old shorthand, and malformed pairs (a:, :a, a:b:c, a:b*, a:b[0], z:x*, z:y[0]); every list of two pairs from a reduced pair set (incl. equal and extending new paths) on Maps with <= M nodes. Oracle: receiver deep-equal to its copy AND no monitored store into any container reachable from the receiver; malformed => error; exact content (reference projection built from ValuesForPath on a pristine copy) when no new path equals or extends another. Ascending and descending map order. non-trivial = non-empty result."
 	c.S.Assumptions = []string{"ValuesForPath itself is validated by C07; the content oracle uses it on a pristine copy as the property states", "lists produced from wildcard old paths are compared as multisets"}
 	n, n2 := 5, 4
 	if c.Thorough {
 		n, n2 = 6, 5
 	}
 	var olds []string
-	seqs([]string{"a", "b", "k", "z", "*", "a[0]", "k[1]"}, 2, func(s []string) { olds = append(olds, strings.Join(s, ".")) })
+	seqs([]string{"a", "ab", "k", "z", "*", "a[0]", "k[1]"}, 2, func(s []string) { olds = append(olds, strings.Join(s, ".")) })
 	newsA := []string{"x", "y", "x.y", "x.z"}
 	var singles []string
 	for _, o := range olds {
@@ -226,14 +226,14 @@ func c12Run(c *Ctx) {
 	}
 	singles = append(singles, "a:", ":a", "a:b:c", "a:b*", "a:b[0]", "z:x*", "z:y[0]", "a.", "a:x.", "*", "a[0]", "z:x[", "")
 	var reduced []string
-	for _, o := range []string{"a", "b", "k", "*", "a[0]", "a.b", "k.*", "z"} {
+	for _, o := range []string{"a", "ab", "k", "*", "a[0]", "a.ab", "k.*", "z"} {
 		for _, nw := range newsA {
 			reduced = append(reduced, o+":"+nw)
 		}
 	}
 	reduced = append(reduced, "z:x*", "a:", "a")
 	// new paths that run through keys found inside an earlier projected value (maps below lists included)
-	for _, o := range []string{"a", "b", "k"} {
+	for _, o := range []string{"a", "ab", "k"} {
 		for _, nw := range []string{"x.k", "x.a.y", "x.k.y", "x.b.k"} {
 			reduced = append(reduced, o+":"+nw)
 		}
@@ -257,7 +257,7 @@ func c12Run(c *Ctx) {
 		}
 		rt.OrderPolicy = rt.PolicySorted
 	}
-	g := newGen(GenP{Keys: []string{"a", "b", "k"}, MaxList: 3, MaxKeys: 3, EmptyList: true, EmptyMap: true, ListInList: false})
+	g := newGen(GenP{Keys: []string{"a", "ab", "k"}, MaxList: 3, MaxKeys: 3, EmptyList: true, EmptyMap: true, ListInList: false})
 	g.rootMaps(n, func(t *T) {
 		for _, s := range singles {
 			run(t, []string{s})
@@ -271,7 +271,7 @@ func c12Run(c *Ctx) {
 		}
 	})
 	if c.Thorough {
-		three := []string{"a:x", "b:x.y", "k:x.y.z", "*:x", "a[0]:y", "a.b:x.z"}
+		three := []string{"a:x", "ab:x.y", "k:x.y.z", "*:x", "a[0]:y", "a.ab:x.z"}
 		g.rootMaps(4, func(t *T) {
 			for _, p1 := range three {
 				for _, p2 := range three {
